@@ -174,12 +174,13 @@ be_pair_transfer(struct bufferevent *src, struct bufferevent *dst,
 	}
 
 	if (n) {
+		/* dst has read successfully, src has written successfully */
 		BEV_RESET_GENERIC_READ_TIMEOUT(dst);
 
-		if (evbuffer_get_length(dst->output))
-			BEV_RESET_GENERIC_WRITE_TIMEOUT(dst);
+		if (evbuffer_get_length(src->output))
+			BEV_RESET_GENERIC_WRITE_TIMEOUT(src);
 		else
-			BEV_DEL_GENERIC_WRITE_TIMEOUT(dst);
+			BEV_DEL_GENERIC_WRITE_TIMEOUT(src);
 	}
 
 	bufferevent_trigger_nolock_(dst, EV_READ, 0);
